@@ -665,6 +665,15 @@ def layer_cov(agg):
     sel = len([k for k in cl if k.startswith("events/selector/")])
     sw = len([k for k in cl if k.startswith("events/swdigit/")])
     env = {k[13:]: hex(v) for k, v in cl.items() if k.startswith("max/envelope/")}
+    # the direct workload must drive every field routine at least as hard as real API executions do
+    under = []
+    for k, v in cl.items():
+        if k.startswith("max/envelope/api/") and "/out/" not in k:
+            d = cl.get("max/envelope/direct/" + k[len("max/envelope/api/"):])
+            if d is not None and v > d:
+                under.append("%s api=%s direct=%s" % (k[len("max/envelope/api/"):], hex(v), hex(d)))
+    if under:
+        agg.inconclusive.append("direct field workload under-covers the operand magnitudes seen on API executions: " + "; ".join(sorted(under)[:6]))
     # keep the class table readable: fold the per-digit counters
     for k in [k for k in cl if k.startswith("events/w4digit/") or k.startswith("events/selector/") or k.startswith("events/swdigit/") or k.startswith("max/envelope/")]:
         del cl[k]
@@ -744,14 +753,60 @@ def ct_cases(seed, thorough, slow=False):
     if thorough:
         secs += [b"\x0f" * 32, b"\xf0" * 32, b"\x80" + bytes(31), bytes(31) + b"\x80", b"\x78" * 32, b"\x99" * 32]
     pub = rnd.randbytes(24)
+    # secrets chosen so that a secret-derived scalar is unusually short (leading zero nibble / byte /
+    # two bytes of the reduced secret scalar a or of the nonce r): magnitude-dependent loops or early
+    # exits on secrets show up only on such values (1/16 .. 1/65536 of random secrets)
+    import hashlib
+    L = 2 ** 252 + 27742317777372353535851937790883648493
+    DOM = b"SigEd25519 no Ed25519 collisions"
+
+    def nonce(seed, op):
+        h = hashlib.sha512(seed).digest()
+        if op == "signctx":
+            pre = DOM + bytes([0, len(b"some context")]) + b"some context"
+            m = pub
+        elif op == "signph":
+            pre = DOM + bytes([1, len(b"ph context")]) + b"ph context"
+            m = hashlib.sha512(pub).digest()
+        else:
+            pre, m = b"", pub
+        return int.from_bytes(hashlib.sha512(pre + h[32:] + m).digest(), "little") % L
+
+    def scalar_a(seed):
+        h = bytearray(hashlib.sha512(seed).digest()[:32])
+        h[0] &= 248
+        h[31] &= 127
+        h[31] |= 64
+        return int.from_bytes(bytes(h), "little") % L
+
+    def short(fn, bits, tries):
+        for _ in range(tries):
+            sd = rnd.randbytes(32)
+            if fn(sd) < 2 ** bits:
+                return sd
+        return None
+    targeted = {}
+    for op in ("sign", "signctx", "signph"):
+        t = [short(lambda sd: nonce(sd, op), 248, 400), short(lambda sd: nonce(sd, op), 244, 4000)]
+        if thorough:
+            t.append(short(lambda sd: nonce(sd, op), 236, 300000))
+        targeted[op] = [x for x in t if x]
+    ta = [short(scalar_a, 248, 400), short(scalar_a, 244, 4000)]
+    if thorough:
+        ta.append(short(scalar_a, 236, 300000))
+    for op in ("keygen", "generatekey"):
+        targeted[op] = [x for x in ta if x]
     cases = []
     ops = CT_OPS32
     for op in ops:
         sl = secs
         if not thorough and op in ("signctx", "signph", "scalarbasemult", "generatekey", "edpriv", "seed"):
-            sl = secs[:4]
+            sl = secs[:3]
+        elif not thorough:
+            sl = secs[:6]
         if slow:
             sl = secs[:3]
+        sl = list(sl) + (targeted.get(op, [])[:1] if slow else targeted.get(op, []))
         cases.append((op, [(x, x) for x in sl], pub))
     # Equal: arbitrary 64-byte keys; reference pair is (K, K)
     K = rnd.randbytes(64)
